@@ -8,8 +8,8 @@ import (
 	"github.com/KevoDB/kevo/pkg/zzverif/vsym"
 )
 
-// VerifMgr: symbolic program over {Put,Delete,Flush,Reopen} on a 2-key universe, then Get(q).
-func VerifMgr() {
+// VerifC01_StorageProgram: symbolic program over {Put,Delete,Flush,Reopen} on a 2-key universe, then Get(q).
+func VerifC01_StorageProgram() {
 	cfg := config.NewDefaultConfig(vsym.Dir())
 	m, err := NewManager(cfg, stats.NewAtomicCollector())
 	vsym.Assert(err == nil, "NewManager failed")
